@@ -53,6 +53,10 @@ Theorem C17_utf16_decodes_scalars : forall buf c rest,
 Proof. exact Utf16P.dec1_scalar. Qed.
 Print Assumptions C17_utf16_decodes_scalars.
 
+Theorem C17_utf32_decodes_scalars : forall be buf c rest, Utf32.dec1 be buf = Got c rest -> scalar c.
+Proof. exact Utf32P.dec1_scalar. Qed.
+Print Assumptions C17_utf32_decodes_scalars.
+
 (* --- encode: one item per string plus the completion item; the BOM in front of the FIRST item only,
        whatever the strings are (empty strings, no string at all: then the completion item carries it) --- *)
 Theorem C17_encode_bom_once : forall e strs, Forall (Forall (valid_cp e)) strs ->
@@ -98,5 +102,6 @@ Proof. unfold valid_cp, scalar. repeat constructor; lia. Qed.
 (* malformed input is an explicit error in the model, not silently dropped *)
 Example C17_errors_example :
   decode EUtf8 [[0xE0]; [0x80]] = ([[]], DecodeError) /\ decode EUtf8 [[0xF0; 0x9F]] = ([[]], DecodeError)
+  /\ decode EUtf8 [[0xED; 0xA0]; [0x80]] = ([[]], DecodeError) /\ decode EUtf8 [[0xED; 0xA0; 0x80]] = ([], DecodeError)
   /\ decode EUtf16 [[0x41]; [0]] = ([[]], NoBomError) /\ encode EUtf8 [[0x61]; [0xD800]] = ([[0x61]], EncodeError).
 Proof. vm_compute. repeat split; reflexivity. Qed.
